@@ -11,7 +11,7 @@ RULE = ("bin-completion on hardpack / repeat / threshold / random / planted inte
         "from Partition, Sums and BinCount is compared with the exact optimum (O2), with first-fit-decreasing and best-fit-decreasing; "
         "non-trivial = best-fit-decreasing uses more bins than the optimum (bin-completion had to improve on its starting point); distinct on (binsize, sorted values)")
 ASSUMPTIONS = ["O2 is an independent exact branch-and-bound (cross-checked against planted instances in rv.oracles.selfcheck)", "integer values, list presentation"]
-FLOORS = {"quick": {"distinct_nontrivial": 300}, "thorough": {"distinct_nontrivial": 3000}}
+FLOORS = {"quick": {"distinct_nontrivial": 300}, "thorough": {"distinct_nontrivial": 1500}}
 
 
 def plan(tier, seed):
